@@ -54,6 +54,8 @@ __CPROVER_ensures(IMPLIES((buf == NULL || (EL_TOT(element, opt) <= buf_size &&
 		(EL_CHILD(element) ? !g_el_cur_bad : (!g_el_any_bad && (!EL_HDR(opt) || EL_DAT(element) <= SPEC_TLV_MAX_LEN))), __CPROVER_return_value == KSI_OK))
 /* C6 content longer than the 16-bit length field is refused                               (DESIGN 7-e analogue, fixed by f38b47b) */
 __CPROVER_ensures(IMPLIES(!EL_CHILD(element) && __CPROVER_return_value == KSI_OK && EL_HDR(opt), EL_DAT(element) <= SPEC_TLV_MAX_LEN))
+/* C6a hence an encoding with header never exceeds 0xffff + 4 octets (for a child: bounds the size the list stub named) */
+__CPROVER_ensures(IMPLIES(__CPROVER_return_value == KSI_OK && EL_HDR(opt), EL_TOT(element, opt) <= SPEC_TLV_MAX_LEN + 4))
 #ifndef EL_NESTED_LIGHT   /* header and leaf-payload octets: jobs C09.elleaf_* (plain mode); the contract-mode jobs for nested elements carry sizes and tiling only */
 /* C7 header octets = reference encoding of (tag, flags, payload length), short form exactly when allowed */
 __CPROVER_ensures(IMPLIES(!EL_CHILD(element) && __CPROVER_return_value == KSI_OK && buf != NULL && EL_HDR(opt) && EL_TOT(element, opt) <= buf_size,
